@@ -41,6 +41,8 @@ pub fn run(report: &Report, thorough: bool) -> Evidence {
     // ---------------- fixed method ----------------
     if crate::par::part_enabled("fixed") {
         let mut alphabet: Vec<Ev> = FIXED_KEYS.iter().map(|&(c, g)| key_ev(c, g)).collect();
+        // a number-pad key (its value depends on the number-pad option)
+        alphabet.push(Ev::key(crate::keys::by_name("VC_KP_1").unwrap().code));
         let nkeys = alphabet.len();
         alphabet.push(Ev::Bs);
         alphabet.push(Ev::CtrlBs);
@@ -68,6 +70,16 @@ pub fn run(report: &Report, thorough: bool) -> Evidence {
         for b in 0..16u32 {
             jobs.push((1 << 8 | b, 2));
         }
+        // "all configurations": each remaining option flipped on its own (bit 10 ANSI, bit 11 number pad, bit 12 English
+        // without the suggestion list), from the all-off and the all-on helper setting; suggestions on with ANSI / number pad
+        for extra in [1u32 << 10, 1 << 11, 1 << 12] {
+            jobs.push((extra, 3));
+            jobs.push((63 | extra, 3));
+        }
+        for extra in [1u32 << 10, 1 << 11] {
+            jobs.push((1 << 8 | 15 | extra, 2));
+            jobs.push((1 << 8 | extra, 2));
+        }
         par_for(
             jobs.len(),
             1,
@@ -92,8 +104,13 @@ pub fn run(report: &Report, thorough: bool) -> Evidence {
                     o.karorder = bits & 16 != 0;
                     o.smart = bits & 32 != 0;
                 }
+                o.ansi = bits & (1 << 10) != 0;
+                o.numpad = bits & (1 << 11) != 0;
+                if bits & (1 << 12) != 0 {
+                    o.english = true;
+                }
                 // continuation keys compared with a never-used context after every word ending
-                let cont_keys: Vec<usize> = if o.fsugg { vec![0, 3] } else if bits & (1 << 9) != 0 { vec![0, 3, 4, 7, 12] } else { (0..nkeys).collect() };
+                let cont_keys: Vec<usize> = if o.fsugg { if bits >> 10 != 0 { vec![0, 3, nkeys - 1] } else { vec![0, 3] } } else if bits & (1 << 9) != 0 { vec![0, 3, 4, 7, 12] } else { (0..nkeys).collect() };
                 let mut ctx = Ctx::new(&o).expect("ctx");
                 ctx.with_pre = false;
                 // renderings of every single key and key pair in a context that has never been used
@@ -252,11 +269,14 @@ pub fn run(report: &Report, thorough: bool) -> Evidence {
         let endings = AtomicU64::new(0);
         let cont_runs = AtomicU64::new(0);
         let mut n_cfg = 0;
-        for bits in 0..4u32 {
+        // {English, suggestions} x ANSI off, then ANSI on and smart quotes off (each with suggestions on and off)
+        for bits in [0u32, 1, 2, 3, 4, 6, 8, 11] {
             n_cfg += 1;
             let mut o = Opts::phonetic(&tiny, "");
             o.english = bits & 1 != 0;
             o.psugg = bits & 2 == 0;
+            o.ansi = bits & 4 != 0;
+            o.smart = bits & 8 == 0;
             let files = BTreeMap::new();
             // per-worker twin contexts are created lazily inside visit via thread-local map
             thread_local! {
